@@ -2423,6 +2423,10 @@ class sptensor:
         newsubs = key
         tt_subscheck(newsubs, nargout=False)
 
+        # No subscripts: nothing is assigned
+        if newsubs.shape[0] == 0:
+            return
+
         # Error check on subscripts
         if newsubs.shape[1] < self.ndims:
             assert False, "Invalid subscripts"
@@ -2610,7 +2614,7 @@ class sptensor:
                 else:
                     newsz.append(max([self.shape[n], key[n].stop]))
             elif isinstance(key[n], Iterable):
-                newsz.append(max([self.shape[n], max(key[n]) + 1]))
+                newsz.append(max([self.shape[n], max(key[n], default=-1) + 1]))
             else:
                 newsz.append(max([self.shape[n], key[n] + 1]))
 
@@ -2671,21 +2675,15 @@ class sptensor:
                 nssubs[n] = indicesInN
 
             # Preallocate (discover any memory issues here!)
-            addsubs = np.zeros((np.prod(nssubs).astype(int), N))
-
-            # Generate appropriately sized ones vectors
-            o = []
-            for n in range(N):
-                o.append(np.ones((int(nssubs[n]), 1)))
-
-            # Generate each column of the subscripts in turn
-            for n in range(N):
-                i = o.copy()
-                if not np.isscalar(keyCopy[n]):
-                    i[n] = np.array(keyCopy[n])[:, None]
-                else:
-                    i[n] = np.array(keyCopy[n], ndmin=2)
-                addsubs[:, n] = ttb.khatrirao(*i).transpose()[:]
+            # Subscripts stay 64-bit integers throughout (float64 cannot hold
+            # every subscript of a long sparse mode)
+            counts = [int(c) for c in nssubs[:, 0]]
+            grids = np.meshgrid(
+                *[np.atleast_1d(np.asarray(k, dtype=np.int64)) for k in keyCopy],
+                indexing="ij",
+            )
+            addsubs = np.stack([g.reshape(-1) for g in grids], axis=1)
+            assert addsubs.shape == (int(np.prod(counts)), N)
 
             if self.subs.size > 0:
                 # Replace existing values
